@@ -77,12 +77,14 @@ theorem rangeItems_good (items : List Str) (lastEnd : Int) (acc : List (Int × O
           | none => exact ⟨none, rfl, by simp⟩
           | some b =>
             simp only
-            exact ih (-1) ((b, none) :: acc) (by
-              intro r hr
-              simp only [List.mem_cons] at hr
-              rcases hr with rfl | hr
-              · simp [GoodRange, badRange]
-              · exact hacc r hr)
+            split
+            · exact ⟨none, rfl, by simp⟩
+            · exact ih (-1) ((b, none) :: acc) (by
+                intro r hr
+                simp only [List.mem_cons] at hr
+                rcases hr with rfl | hr
+                · simp [GoodRange, badRange]
+                · exact hacc r hr)
       · generalize hp : partition '-' (strip item0) = p
         obtain ⟨bs, f, es⟩ := p
         simp only
